@@ -88,6 +88,11 @@ def csys(cfg, ids=None):
         # orthonormal Hermitian basis whose FIRST element is not the identity but has a constant diagonal: (X, I, Y, Z)/sqrt2
         P = [np.asarray(b.toarray() if hasattr(b, "toarray") else b) for b in mb.get_normalized_pauli_basis()]
         es = [ElementalSystem(ids[0] if ids else 0, mb.MatrixBasis([P[1], P[0], P[2], P[3]]))]
+    elif cfg == "Q2x":
+        # two qubits, the FIRST (lower name) with the X-first basis, the second with the normalised Pauli basis
+        P = [np.asarray(b.toarray() if hasattr(b, "toarray") else b) for b in mb.get_normalized_pauli_basis()]
+        names = ids or [0, 1]
+        es = [ElementalSystem(names[0], mb.MatrixBasis([P[1], P[0], P[2], P[3]])), ElementalSystem(names[1], mb.get_normalized_pauli_basis())]
     else:
         kinds = {"Q1": "Q", "T1": "T", "Q2": "QQ", "QT": "QT", "TQ": "TQ", "Q3": "QQQ", "T2": "TT", "Q4": "QQQQ"}[cfg]
         names = ids or list(range(len(kinds)))
